@@ -998,8 +998,8 @@ def c14_1_cases(ctx, oid='C14.1'):
     outside='arbitrary text that is not the YAML rendering of a mutated '
             'document (PyYAML scanner, regex engines and the YAQL / Jinja '
             'grammars are C / parser code whose input cannot be symbolic); '
-            'two simultaneous mutations (C14.2 covers pairs on the task '
-            'level); time: a validation call that needs > 20 s is reported '
+            'two simultaneous mutations; time: a validation call that needs '
+            '> 20 s is reported '
             'as a hang',
     timeout=(420, 3000))
 def c14_1(ctx):
